@@ -54,6 +54,8 @@ pub static SEAM: Mutex<SeamState> = Mutex::new(SeamState { history: Vec::new(), 
 pub static N_PTRACE: AtomicU64 = AtomicU64::new(0);
 pub static N_WAIT: AtomicU64 = AtomicU64::new(0);
 pub static N_GETRANDOM: AtomicU64 = AtomicU64::new(0);
+/// (read fd, write fd) of every pipe created in this process, in creation order
+pub static PIPES: Mutex<Vec<(i32, i32)>> = Mutex::new(Vec::new());
 static RANDOM_STATE: AtomicU64 = AtomicU64::new(0x5EED_5EED_5EED_5EED);
 
 pub fn set_random_seed(seed: u64) {
@@ -199,4 +201,16 @@ pub unsafe extern "C" fn getrandom(buf: *mut libc::c_void, len: libc::size_t, _f
         }
     }
     len as libc::ssize_t
+}
+
+#[unsafe(no_mangle)]
+pub unsafe extern "C" fn pipe2(fds: *mut libc::c_int, flags: libc::c_int) -> libc::c_int {
+    let r = unsafe { libc::syscall(libc::SYS_pipe2, fds, flags) } as libc::c_int;
+    if r == 0 {
+        let (a, b) = unsafe { (*fds, *fds.add(1)) };
+        if let Ok(mut p) = PIPES.lock() {
+            p.push((a, b));
+        }
+    }
+    r
 }
